@@ -437,6 +437,11 @@ class CompletionLog:
                         # an earlier visit of the node got its own invocation that never started: its request ran under
                         # the id of this invocation (the node was visited twice before the first request was scheduled)
                         site += ":double-visit"
+                    if any(any(str(x.state_name) == "started" for x in sts) and
+                           not any(str(x.state_name) in CONCLUSIVE for x in sts) for sts in others.values()):
+                        # an earlier invocation of the node is still shown as running: its command was superseded by this
+                        # invocation's request and the Cancelled state of that clean-up landed here
+                        site += ":superseded-earlier-invocation"
                     cmds = [st.command for st in mine if st.command is not None]
                     if cmds and not any(c.is_cancelled() for c in cmds):
                         site += ":command-not-cancelled"   # only the log says Cancelled, the command object was not cancelled
@@ -449,6 +454,7 @@ class CompletionLog:
 # engine runs
 
 FLAKY_COMMANDS = {"FlakyA": 1, "FlakyC": 3}   # name -> iteration (1-based) in which the exec function raises
+LONG_COMMANDS = {"CmdLong": 15}               # name -> iterations until complete (outlasts an Alarm cycle / a macro call)
 
 
 def flaky_engine_run(pcode: str):
@@ -464,12 +470,21 @@ def flaky_engine_run(pcode: str):
             if cmd._verif_iter >= at:
                 raise ValueError(f"{name} fails in iteration {at}")
         return exec_fn
+    def make_long(name: str, n: int):
+        def exec_fn(cmd, **kvargs):
+            cmd._verif_iter = getattr(cmd, "_verif_iter", 0) + 1
+            if cmd._verif_iter >= n:
+                cmd.set_complete()
+        return exec_fn
     orig = UodBuilder.build
 
     def build(self):
         for name, at in FLAKY_COMMANDS.items():
             if name not in self.command_factories:
                 self.with_command(name=name, exec_fn=make_exec(name, at))
+        for name, n in LONG_COMMANDS.items():
+            if name not in self.command_factories:
+                self.with_command(name=name, exec_fn=make_long(name, n))
         return orig(self)
     UodBuilder.build = build
     try:
